@@ -6,6 +6,9 @@ A *spec* (JSON-able) is
   {"dops": [{"name","bt","bl","phys","unit"}], "units": [{"name","display"}],
    "comparams": ["CP_a", ...],                       # comparam subset shared by all layers
    "sdops": [{"name","members":[param...],"byte_size": int|None}],   # STRUCTUREs that VALUE parameters may link to (key "dop")
+   "containers": [[layer names], ...],               # optional: one DIAG-LAYER-CONTAINER (= one ODX-D file) per entry, loaded in this
+                                                     # order (absent: all layers in the single container "DLC"); references that
+                                                     # cross containers carry DOCREF + DOCTYPE ("docref": "CONTAINER" | "LAYER")
    "layers": [{"name","kind","parent": name|None,    # single parent; or, more general,
                "parents": [{"name", "ni_svcs": [short names], "ni_dops": [short names]}],   # PARENT-REFs with NOT-INHERITED-* lists
                "own_dops": [dop names defined in this layer], "structs": number of (unused) STRUCTUREs defined in this layer,
@@ -13,7 +16,7 @@ A *spec* (JSON-able) is
                "own_sdops": [names of "sdops" defined in this layer],
                "cprefs": [[comparam name, protocol snref|None], ...],
                "services": [{"id","name","req":[param...],"pos":[[param...]...],"neg":[[param...]...]}]}]}
-  param = {"name","kind": const|value|physconst|nrc|reserved|matching,
+  param = {"name","kind": const|value|physconst|nrc|reserved|matching|system|lengthkey|dynamic,
            "bp": int|None, "bl": int, "val": int|str, "bt": base type of a const, "sem": str|None,
            "dop": dop name, "default": int|None, "vals": [ints] (nrc)}
 """
@@ -43,7 +46,9 @@ def _dop_xml(d, lname):
             f'<PHYSICAL-TYPE BASE-DATA-TYPE="{d["phys"]}"/>{unit}</DATA-OBJECT-PROP>')
 
 
-def _param_xml(p, dop_id):
+def _param_xml(p, dop_id, pid=""):
+    """dop_id: short name of a DOP / STRUCTURE -> the attributes of a reference to it (ID-REF, and DOCREF + DOCTYPE when it is
+    defined in another container); pid: a document-wide unique ID for the parameter (only LENGTH-KEY parameters have one)"""
     k = p["kind"]
     sem = f' SEMANTIC="{p["sem"]}"' if p.get("sem") is not None else ""
     pos = f'<BYTE-POSITION>{p["bp"]}</BYTE-POSITION>' if p.get("bp") is not None else ""
@@ -55,9 +60,15 @@ def _param_xml(p, dop_id):
         return f'<PARAM xsi:type="NRC-CONST"{sem}>{head}<CODED-VALUES>{vs}</CODED-VALUES>{_dct(p.get("bt", "A_UINT32"), p["bl"])}</PARAM>'
     if k == "value":
         d = f'<PHYSICAL-DEFAULT-VALUE>{p["default"]}</PHYSICAL-DEFAULT-VALUE>' if p.get("default") is not None else ""
-        return f'<PARAM xsi:type="VALUE"{sem}>{head}{d}<DOP-REF ID-REF="{dop_id[p["dop"]]}"/></PARAM>'
+        return f'<PARAM xsi:type="VALUE"{sem}>{head}{d}<DOP-REF {dop_id[p["dop"]]}/></PARAM>'
+    if k == "system":
+        return f'<PARAM xsi:type="SYSTEM" SYSPARAM="{p.get("sysparam", "TIMESTAMP")}"{sem}>{head}<DOP-REF {dop_id[p["dop"]]}/></PARAM>'
+    if k == "lengthkey":
+        return f'<PARAM ID="{pid}" xsi:type="LENGTH-KEY"{sem}>{head}<DOP-REF {dop_id[p["dop"]]}/></PARAM>'
+    if k == "dynamic":
+        return f'<PARAM xsi:type="DYNAMIC"{sem}>{head}</PARAM>'
     if k == "physconst":
-        return f'<PARAM xsi:type="PHYS-CONST"{sem}>{head}<PHYS-CONSTANT-VALUE>{p["val"]}</PHYS-CONSTANT-VALUE><DOP-REF ID-REF="{dop_id[p["dop"]]}"/></PARAM>'
+        return f'<PARAM xsi:type="PHYS-CONST"{sem}>{head}<PHYS-CONSTANT-VALUE>{p["val"]}</PHYS-CONSTANT-VALUE><DOP-REF {dop_id[p["dop"]]}/></PARAM>'
     if k == "reserved":
         return f'<PARAM xsi:type="RESERVED"{sem}>{head}<BIT-LENGTH>{p["bl"]}</BIT-LENGTH></PARAM>'
     if k == "matching":
@@ -65,8 +76,9 @@ def _param_xml(p, dop_id):
     raise ValueError(k)
 
 
-def spec_xml(spec, docname="DLC"):
-    """-> list of XML documents (comparam subset first when needed)"""
+def spec_xml(spec, docname="DLC", layer_xml=None):
+    """-> list of XML documents (comparam subset first when needed, then one per DIAG-LAYER-CONTAINER in loading order);
+    layer_xml: a dict that receives {layer short name: XML of that layer}"""
     docs = []
     cps = spec.get("comparams", [])
     if cps:
@@ -79,19 +91,36 @@ def spec_xml(spec, docname="DLC"):
                     f'</DATA-OBJECT-PROP></DATA-OBJECT-PROPS></COMPARAM-SUBSET></ODX>')
     dops = {d["name"]: d for d in spec.get("dops", [])}
     units = spec.get("units", [])
-    by_kind = {}
+    by_kind = {}    # (container index, layer kind) -> [layer XML]
     # which layer defines which DOP (for ID construction); a DOP must be defined in the layer or an ancestor
     dop_owner = {}
-    dop_id = {}     # short name -> ODXLINK id that DOP-REFs use (the first layer defining the DOP / structure)
+    dop_at = {}     # short name -> (ODXLINK id that DOP-REFs use, the first layer defining the DOP / structure)
     sdops = {d["name"]: d for d in spec.get("sdops", [])}
+    conts = containers_of(spec)
+    cont_of = {ln: i for i, c in enumerate(conts) for ln in c}
+    cname = (lambda i: f"{docname}{i}") if spec.get("containers") else (lambda i: docname)
     for L in spec["layers"]:
         for dn in L.get("own_dops", []):
             dop_owner.setdefault(dn, L["name"])
-            dop_id.setdefault(dn, f'{L["name"]}.D.{dn}')
+            dop_at.setdefault(dn, (f'{L["name"]}.D.{dn}', L["name"]))
         for sn in L.get("own_sdops", []):
-            dop_id.setdefault(sn, f'{L["name"]}.SD.{sn}')
+            dop_at.setdefault(sn, (f'{L["name"]}.SD.{sn}', L["name"]))
+
+    def ref_attrs(idref, target_layer, from_layer):
+        """attributes of an ODXLINK reference from a layer to an object of a layer; DOCREF + DOCTYPE when they live in different containers"""
+        if cont_of[target_layer] == cont_of[from_layer]:
+            return f'ID-REF="{idref}"'
+        if spec.get("docref") == "LAYER":
+            return f'ID-REF="{idref}" DOCREF="{target_layer}" DOCTYPE="LAYER"'
+        return f'ID-REF="{idref}" DOCREF="{cname(cont_of[target_layer])}" DOCTYPE="CONTAINER"'
+
     for L in spec["layers"]:
         ln = L["name"]
+        dop_id = {n: ref_attrs(i, owner, ln) for n, (i, owner) in dop_at.items()}
+
+        def params_xml(ps, base):
+            return "".join(_param_xml(p, dop_id, f"{base}.P.{i}") for i, p in enumerate(ps))
+
         own = [dops[dn] for dn in L.get("own_dops", []) if dop_owner[dn] == ln]
         own += [dops[dn] for dn in L.get("dup_dops", []) if dop_owner.get(dn) != ln]
         used_units = sorted({d["unit"] for d in own if d.get("unit")})
@@ -101,14 +130,14 @@ def spec_xml(spec, docname="DLC"):
             uxml = "<UNIT-SPEC><UNITS>" + "".join(
                 f'<UNIT ID="{ln}.U.{u}"><SHORT-NAME>{u}</SHORT-NAME><DISPLAY-NAME>{ud[u]["display"]}</DISPLAY-NAME></UNIT>' for u in used_units) + "</UNITS></UNIT-SPEC>"
         sxml = ""
-        own_sd = [sdops[sn] for sn in L.get("own_sdops", []) if dop_id[sn] == f"{ln}.SD.{sn}"]
+        own_sd = [sdops[sn] for sn in L.get("own_sdops", []) if dop_at[sn][0] == f"{ln}.SD.{sn}"]
         if L.get("structs") or own_sd:
             sxml = "<STRUCTURES>" + "".join(
                 f'<STRUCTURE ID="{ln}.ST.{k}"><SHORT-NAME>st{k}</SHORT-NAME><PARAMS>{_param_xml({"name": "c", "kind": "const", "val": k, "bl": 8}, dop_id)}</PARAMS></STRUCTURE>'
                 for k in range(L.get("structs") or 0)) + "".join(
                 f'<STRUCTURE ID="{ln}.SD.{sd["name"]}"><SHORT-NAME>{sd["name"]}</SHORT-NAME>'
                 + (f'<BYTE-SIZE>{sd["byte_size"]}</BYTE-SIZE>' if sd.get("byte_size") is not None else "")
-                + f'<PARAMS>{"".join(_param_xml(m, dop_id) for m in sd["members"])}</PARAMS></STRUCTURE>'
+                + f'<PARAMS>{params_xml(sd["members"], ln + ".SD." + sd["name"])}</PARAMS></STRUCTURE>'
                 for sd in own_sd) + "</STRUCTURES>"
         ddds = (f'<DIAG-DATA-DICTIONARY-SPEC><DATA-OBJECT-PROPS>{"".join(_dop_xml(d, ln) for d in own)}</DATA-OBJECT-PROPS>{sxml}{uxml}'
                 f'</DIAG-DATA-DICTIONARY-SPEC>')
@@ -116,13 +145,13 @@ def spec_xml(spec, docname="DLC"):
         for s in L["services"]:
             sid = s.get("id", s["name"])
             rid = f"{ln}.RQ.{sid}"
-            reqs.append(f'<REQUEST ID="{rid}"><SHORT-NAME>RQ_{sid}</SHORT-NAME><PARAMS>{"".join(_param_xml(p, dop_id) for p in s["req"])}</PARAMS></REQUEST>')
+            reqs.append(f'<REQUEST ID="{rid}"><SHORT-NAME>RQ_{sid}</SHORT-NAME><PARAMS>{params_xml(s["req"], rid)}</PARAMS></REQUEST>')
             pr, nr = "", ""
             for k, ps in enumerate(s.get("pos", [])):
-                poss.append(f'<POS-RESPONSE ID="{ln}.PR.{sid}.{k}"><SHORT-NAME>PR_{sid}_{k}</SHORT-NAME><PARAMS>{"".join(_param_xml(p, dop_id) for p in ps)}</PARAMS></POS-RESPONSE>')
+                poss.append(f'<POS-RESPONSE ID="{ln}.PR.{sid}.{k}"><SHORT-NAME>PR_{sid}_{k}</SHORT-NAME><PARAMS>{params_xml(ps, f"{ln}.PR.{sid}.{k}")}</PARAMS></POS-RESPONSE>')
                 pr += f'<POS-RESPONSE-REF ID-REF="{ln}.PR.{sid}.{k}"/>'
             for k, ps in enumerate(s.get("neg", [])):
-                negs.append(f'<NEG-RESPONSE ID="{ln}.NR.{sid}.{k}"><SHORT-NAME>NR_{sid}_{k}</SHORT-NAME><PARAMS>{"".join(_param_xml(p, dop_id) for p in ps)}</PARAMS></NEG-RESPONSE>')
+                negs.append(f'<NEG-RESPONSE ID="{ln}.NR.{sid}.{k}"><SHORT-NAME>NR_{sid}_{k}</SHORT-NAME><PARAMS>{params_xml(ps, f"{ln}.NR.{sid}.{k}")}</PARAMS></NEG-RESPONSE>')
                 nr += f'<NEG-RESPONSE-REF ID-REF="{ln}.NR.{sid}.{k}"/>'
             svcs.append(f'<DIAG-SERVICE ID="{ln}.S.{sid}"><SHORT-NAME>{s["name"]}</SHORT-NAME><REQUEST-REF ID-REF="{rid}"/>'
                         + (f"<POS-RESPONSE-REFS>{pr}</POS-RESPONSE-REFS>" if pr else "")
@@ -143,34 +172,144 @@ def spec_xml(spec, docname="DLC"):
             if ref.get("ni_dops"):
                 ni += "<NOT-INHERITED-DOPS>" + "".join(
                     f'<NOT-INHERITED-DOP><DOP-BASE-SNREF SHORT-NAME="{x}"/></NOT-INHERITED-DOP>' for x in ref["ni_dops"]) + "</NOT-INHERITED-DOPS>"
-            par += f'<PARENT-REF ID-REF="{ref["name"]}" xsi:type="{pk}-REF">{ni}</PARENT-REF>'
+            par += f'<PARENT-REF {ref_attrs(ref["name"], ref["name"], ln)} xsi:type="{pk}-REF">{ni}</PARENT-REF>'
         if par:
             par = f"<PARENT-REFS>{par}</PARENT-REFS>"
         kind = L["kind"]
         xml = (f'<{kind} ID="{ln}"><SHORT-NAME>{ln}</SHORT-NAME>{ddds}<DIAG-COMMS>{"".join(svcs)}</DIAG-COMMS>'
                f'<REQUESTS>{"".join(reqs)}</REQUESTS><POS-RESPONSES>{"".join(poss)}</POS-RESPONSES>'
                f'<NEG-RESPONSES>{"".join(negs)}</NEG-RESPONSES>{cpr}{par}</{kind}>')
-        by_kind.setdefault(kind, []).append(xml)
-    body = ""
-    for kind, tag in [("PROTOCOL", "PROTOCOLS"), ("FUNCTIONAL-GROUP", "FUNCTIONAL-GROUPS"), ("ECU-SHARED-DATA", "ECU-SHARED-DATAS"),
-                      ("BASE-VARIANT", "BASE-VARIANTS"), ("ECU-VARIANT", "ECU-VARIANTS")]:
-        if by_kind.get(kind):
-            body += f"<{tag}>{''.join(by_kind[kind])}</{tag}>"
-    docs.append(f'<?xml version="1.0"?><ODX MODEL-VERSION="2.2.0" {XSI}><DIAG-LAYER-CONTAINER ID="{docname}"><SHORT-NAME>{docname}</SHORT-NAME>{body}'
-                f'</DIAG-LAYER-CONTAINER></ODX>')
+        by_kind.setdefault((cont_of[ln], kind), []).append(xml)
+        if layer_xml is not None:
+            layer_xml[ln] = xml
+    for ci in range(len(conts)):
+        body = ""
+        for kind, tag in [("PROTOCOL", "PROTOCOLS"), ("FUNCTIONAL-GROUP", "FUNCTIONAL-GROUPS"), ("ECU-SHARED-DATA", "ECU-SHARED-DATAS"),
+                          ("BASE-VARIANT", "BASE-VARIANTS"), ("ECU-VARIANT", "ECU-VARIANTS")]:
+            if by_kind.get((ci, kind)):
+                body += f"<{tag}>{''.join(by_kind[(ci, kind)])}</{tag}>"
+        docs.append(f'<?xml version="1.0"?><ODX MODEL-VERSION="2.2.0" {XSI}><DIAG-LAYER-CONTAINER ID="{cname(ci)}"><SHORT-NAME>{cname(ci)}</SHORT-NAME>{body}'
+                    f'</DIAG-LAYER-CONTAINER></ODX>')
     return docs
+
+
+def containers_of(spec):
+    """the partition of the layers into DIAG-LAYER-CONTAINERs, in loading order (layers a given layout forgot go to the last one)"""
+    names = [l["name"] for l in spec["layers"]]
+    conts = [[n for n in c if n in names] for c in (spec.get("containers") or [names])]
+    rest = [n for n in names if not any(n in c for c in conts)]
+    if rest:
+        conts[-1] = conts[-1] + rest
+    return [c for c in conts if c] or [names]
+
+
+def _parse(spec, layer_xml=None):
+    """a Database that has read the documents of the spec (XML parser only, no refresh())"""
+    from odxtools.database import Database
+    db = Database()
+    for x in spec_xml(spec, layer_xml=layer_xml):
+        db._process_xml_tree(ET.fromstring(x))
+    return db
 
 
 def load(spec):
     import warnings
-    from odxtools.database import Database
-    db = Database()
     with warnings.catch_warnings():
         warnings.simplefilter("ignore")
-        for x in spec_xml(spec):
-            db._process_xml_tree(ET.fromstring(x))
+        db = _parse(spec)
         db.refresh()
     return db
+
+
+# --------------------------------------------------------------------------- call histories: a loaded database is edited in place
+# A *schedule* is a word over {N, O, R}, applied to a freshly loaded database of the old spec:
+#   N / O  the content of every layer that differs between the database's current state and the new / old spec is replaced *in
+#          place* (the DiagLayer object and its DiagLayerRaw object stay the same, the fields of the raw object -- services,
+#          requests, responses, data dictionary, parent refs ... -- are set to what the XML parser yields for the target spec;
+#          layers that do not differ are not touched at all), followed by Database.refresh()
+#   R      Database.refresh() once more, without any change
+# The resulting database must be indistinguishable from a freshly loaded one of the spec reached last.
+SCHEDULES = ("N", "NR", "RN", "NON", "NO")
+
+
+def schedule_target(schedule):
+    """which spec the database is in after the schedule: 'new' | 'old'"""
+    last = [c for c in schedule if c in "NOM"]
+    return "new" if last and last[-1] in "NM" else "old"
+
+
+def load_mutated(spec_old, lname, edit):
+    """schedule "M": the object-level in-place edit of a loaded database (the workflow of examples/mksomersaultmodifiedpdx.py):
+    the BIT-LENGTH of the parameter named by a "bitlen" attribute edit (CODED-CONST / NRC-CONST: its STANDARD-LENGTH-TYPE object;
+    RESERVED: the parameter itself) is assigned on the loaded objects, then Database.refresh().  -> (database | None, problem)"""
+    import warnings
+    with warnings.catch_warnings():
+        warnings.simplefilter("ignore")
+        try:
+            edit = edit.get("of", edit)
+            new_bl = int(edit["rows"][0][2])
+            db = load(spec_old)
+            dl = next(d for d in db.diag_layers if d.short_name == lname)
+            svc = next(x for x in dl.services if x.short_name == edit["service"])
+            sec, j, i = edit["loc"]
+            p = (svc.request if sec == "req" else (svc.positive_responses if sec == "pos" else svc.negative_responses)[j]).parameters[i]
+            if edit.get("pkind") == "reserved":
+                p.bit_length = new_bl
+            else:
+                p.diag_coded_type.bit_length = new_bl
+        except Exception as e:  # noqa
+            return None, f"setup:{type(e).__name__}"
+        try:
+            db.refresh()
+        except Exception as e:  # noqa
+            return None, f"foreign:{type(e).__name__}"
+    return db, None
+
+
+def _layer_objects(db):
+    out = {}
+    for dlc in db._diag_layer_containers:
+        for lst in (dlc.ecu_shared_datas, dlc.protocols, dlc.functional_groups, dlc.base_variants, dlc.ecu_variants):
+            for dl in lst:
+                out[dl.diag_layer_raw.short_name] = dl
+    return out
+
+
+def load_history(spec_old, spec_new, schedule):
+    """-> (database | None, problem): load the old spec, then run the schedule (see above).  problem: None, 'setup:<Type>' (the
+    harness could not prepare an in-place edit: not a case) or 'foreign:<Type>' (refresh() of the edited database raised)"""
+    import dataclasses
+    import warnings
+    with warnings.catch_warnings():
+        warnings.simplefilter("ignore")
+        try:
+            db = load(spec_old)
+            state = {}
+            spec_xml(spec_old, layer_xml=state)
+            mine = _layer_objects(db)
+        except Exception as e:  # noqa
+            return None, f"setup:{type(e).__name__}"
+        for step in schedule:
+            if step in "NO":
+                try:
+                    target = {}
+                    other = _layer_objects(_parse(spec_new if step == "N" else spec_old, layer_xml=target))
+                    for ln, xml in target.items():
+                        if state.get(ln) == xml:
+                            continue
+                        raw, raw2 = mine[ln].diag_layer_raw, other[ln].diag_layer_raw
+                        if type(raw) is not type(raw2):
+                            return None, "setup:LayerKindChanged"
+                        for f in dataclasses.fields(raw2):
+                            setattr(raw, f.name, getattr(raw2, f.name))
+                    state = target
+                except Exception as e:  # noqa
+                    return None, f"setup:{type(e).__name__}"
+            try:
+                db.refresh()
+            except Exception as e:  # noqa
+                return None, f"foreign:{type(e).__name__}"
+    return db, None
 
 
 # --------------------------------------------------------------------------- the space of legal short names
@@ -372,6 +511,8 @@ def rename_spec(spec, rng, naming):
     for u in s.get("units", []):
         u["name"] = um[u["name"]]
     s["comparams"] = [cm[c] for c in s.get("comparams", [])]
+    if s.get("containers"):
+        s["containers"] = [[lm.get(n, n) for n in c] for c in s["containers"]]
     for l in s["layers"]:
         l["name"] = lm[l["name"]]
         if l.get("parent"):
@@ -615,7 +756,7 @@ def apply_attr_edit(spec, p, attr, rng):
         p["bt"] = "A_INT32" if p.get("bt", "A_UINT32") == "A_UINT32" else "A_UINT32"
         return True
     if attr == "dop":
-        if k not in ("value", "physconst"):
+        if p.get("dop") is None:       # VALUE, PHYS-CONST, SYSTEM, LENGTH-KEY: every parameter kind that links a DOP
             return False
         cands = [d["name"] for d in spec["dops"] if d["name"] != p["dop"]]
         if k == "value" and p.get("default") is None:
